@@ -316,7 +316,7 @@ TRIGGER_METHODS = ("scan", "fix", "corrupt", "repair", "restore", "restore_file"
 
 
 def triggers() -> List[Tuple[str, str, str, str]]:
-    """rows (file, scope, call text, guard) for every call `<x>.<m>(…)` with m in TRIGGER_METHODS (super().m() included)."""
+    """rows (file, scope, call text) for every call `<x>.<m>(…)` with m in TRIGGER_METHODS (super().m() included)."""
     rows = []
     for path in sorted(SRC.rglob("*.py")):
         rel = str(path.relative_to(SRC))
@@ -540,5 +540,35 @@ def tickOverridesWithoutSuper : List String := {llist([lstr(x) for x in tick_ove
 /-- every writer of a health attribute under src/primaite -/
 def writers : List String := [
   {(",{}  ".format(chr(10))).join(lstr(w) for w in writers())}]
+/-- `apply_timestep` overrides in which `super().apply_timestep(…)` is not reached on every path (early exit in front of it,
+or the call nested in a compound statement) -/
+def tickOverridesConditional : List String := {llist([lstr(x) for x in tick_overrides_conditional()])}
+/-- top-level statements of every `apply_timestep` between the simulation and a health item, and of `_update_fix_status` -/
+def tickBodies : List (String × List String) := [
+  {(",{}  ".format(chr(10))).join("(" + lstr(k) + ", " + llist([lstr(x) for x in v]) + ")" for k, v in tick_bodies())}]
+/-- one way a health / visibility / countdown field is written somewhere under src/primaite:
+kind = assign | aug<Op> | default (class level) | call (set_health_state) | kwarg | copy (model_dump into a constructor) | setattr;
+guard = the enclosing tests inside the function (negated early-exit tests included), joined by && -/
+structure W where
+  file : String
+  scope : String
+  field : String
+  kind : String
+  target : String
+  value : String
+  guard : String
+deriving DecidableEq, Repr
+/-- the complete inventory, sorted -/
+def inventory : List W := [
+  {(",{}  ".format(chr(10))).join("⟨" + ", ".join(lstr(c) for c in r) + "⟩" for r in inventory())}]
+/-- a call site of one of the methods that write those fields -/
+structure T where
+  file : String
+  scope : String
+  call : String
+deriving DecidableEq, Repr
+def triggerMethods : List String := {llist([lstr(x) for x in TRIGGER_METHODS])}
+def triggers : List T := [
+  {(",{}  ".format(chr(10))).join("⟨" + ", ".join(lstr(c) for c in r) + "⟩" for r in triggers())}]
 end Primaite.Gen.Health
 """
